@@ -258,10 +258,22 @@ def set_binop(eng, op, a, b):
     return Box(ty, z3.Lambda([x], body))
 
 
+def _as_seq(items, ty):
+    arr = ty.arr(ty.empty())
+    for i, x in enumerate(items):
+        arr = z3.Store(arr, i, to_z3(x, ty.t))
+    return Box(ty, ty.mk(z3.IntVal(len(items)), arr))
+
+
 def seq_concat(eng, a, b):
+    # a literal list of records next to a typed sequence takes that sequence's element type
+    if isinstance(a, ConcreteList) and isinstance(type_of(b), TSeq):
+        a = _as_seq(list(a), type_of(b))
+    if isinstance(b, ConcreteList) and isinstance(type_of(a), TSeq):
+        b = _as_seq(list(b), type_of(a))
     ty = type_of(a)
     if type_of(b) != ty:
-        raise EngineError('concat of different sequence types')
+        raise EngineError('concat of different sequence types: %s + %s' % (ty, type_of(b)))
     ea, eb = to_z3(a), to_z3(b)
     nb = lit(z3.simplify(ty.len(eb)))
     if isinstance(nb, int) and not isinstance(nb, bool) and 0 <= nb <= 4:
@@ -275,7 +287,9 @@ def seq_concat(eng, a, b):
     la, lb = ty.len(ea), ty.len(eb)
     eng.assume(ty.len(r) == la + lb)
     eng.assume(z3.ForAll([i], z3.Implies(z3.And(0 <= i, i < la), ty.at(r, i) == ty.at(ea, i))))
-    eng.assume(z3.ForAll([i], z3.Implies(z3.And(0 <= i, i < lb), ty.at(r, la + i) == ty.at(eb, i))))
+    # the second part in both directions, each indexed with a plain bound variable (usable as a trigger)
+    eng.assume(forall_pat([i], z3.Implies(z3.And(la <= i, i < la + lb), ty.at(r, i) == ty.at(eb, i - la)), ty.at(r, i)))
+    eng.assume(forall_pat([i], z3.Implies(z3.And(0 <= i, i < lb), ty.at(r, la + i) == ty.at(eb, i)), ty.at(eb, i)))
     return Box(ty, r)
 
 
@@ -1248,6 +1262,21 @@ def b_set(eng, x=None):
         eng.assume(z3.ForAll([x_], z3.Implies(z3.Select(r.e, x_), z3.And(0 <= w(x_), w(x_) < ty.len(e),
                                                                            ty.at(e, w(x_)) == x_))))
         return r
+    if it.get is not None and not isinstance(it.n, int):
+        # set(<generator over a symbolic sequence, possibly filtered>): exactly the generated elements
+        probe = it.get(z3.Int('probe!'))
+        et = type_of(probe)
+        if et is not None:
+            st = TSet(et)
+            r = eng.fresh_box(st, 'setof')
+            x_ = z3.FreshConst(et.sort(), 'sx')
+            i = z3.FreshInt('si')
+            eng.fresh_n += 1
+            w = z3.Function('setw!%d' % eng.fresh_n, et.sort(), z3.IntSort())
+            n = _int(it.n)
+            eng.assume(z3.ForAll([i], z3.Implies(z3.And(0 <= i, i < n), z3.Select(r.e, to_z3(it.get(i), et)))))
+            eng.assume(z3.ForAll([x_], z3.Implies(z3.Select(r.e, x_), z3.And(0 <= w(x_), w(x_) < n, to_z3(it.get(w(x_)), et) == x_))))
+            return r
     raise EngineError('set() of %r' % (x,))
 
 
